@@ -23,13 +23,17 @@ Record config := {
   c_poodle : bool;                      (* Ssl3PoodleProofed *)
   c_tickets_disabled : bool;            (* SessionTicketsDisabled *)
   c_client_auth : Z;                    (* ClientAuth 0..4 *)
-  c_ecdsa : bool;                       (* selected certificate has an ECDSA key *)
-  c_rule : option rule }.               (* ServerRule.Get(conn) *)
+  c_ecdsa : bool;                       (* Certificates[0] has an ECDSA key *)
+  c_rule : option rule;                 (* ServerRule.Get(conn) for a connection without a listed SNI *)
+  c_rules : list (bytes * rule);        (* ServerRule.Get(conn) by conn.serverName (exact match) *)
+  c_certs : list (bytes * bool);        (* NameToCertificate: name -> certificate key is ECDSA *)
+  c_cache : Z }.                        (* 0: ServerSessionCache = nil; 1: configured; 2: configured, SessionCacheDisabled *)
 
 Inductive ticket := NoTicket | BadTicket | GoodTicket (svers ssuite ncerts : Z).
 Record hello := {
   h_vers : Z; h_suites : list Z; h_comp : bytes; h_curves : list Z; h_points : bytes;
-  h_alpn : list bytes; h_npn : bool; h_sid : bytes; h_ticket : ticket }.
+  h_alpn : list bytes; h_npn : bool; h_sni : bytes; h_sid : bytes; h_ticket : ticket;
+  h_cache : ticket (* what ServerSessionCache.Get(hex(sessionId)) holds: nothing / undecodable / a session *) }.
 
 Inductive outcome :=
 | Alert (code : Z)
@@ -165,11 +169,22 @@ Definition client_auth (c : config) : Z :=
 Definition chacha_ok (c : config) : bool :=
   match c_rule c with Some r => r_chacha r | None => false end.
 
-(* ---- checkForResumption (ticket path; cache not configured) ---- *)
+(* ---- checkForResumption ---- *)
+(* the candidate session: ticket path when tickets are enabled and a ticket is present (a ticket that
+   does not decrypt ends the attempt -- no fall-back to the cache), else the session-ID cache path *)
+Definition session_of (c : config) (h : hello) : option (Z * Z * Z) :=
+  let ticket_path := negb (c_tickets_disabled c) &&
+                     match h_ticket h with NoTicket => false | _ => true end in
+  if ticket_path then
+    match h_ticket h with GoodTicket sv ss nc => Some (sv, ss, nc) | _ => None end
+  else if blen (h_sid h) =? 0 then None
+  else if c_cache c =? 1 then
+    match h_cache h with GoodTicket sv ss nc => Some (sv, ss, nc) | _ => None end
+  else None.
+
 Definition resume_suite (c : config) (h : hello) (el : bool) (rc4 : Z) : option Z :=
-  if c_tickets_disabled c then None else
-  match h_ticket h with
-  | GoodTicket sv ss nc =>
+  match session_of c h with
+  | Some (sv, ss, nc) =>
     if h_vers h <? sv then None else
     match mutual_version c sv with
     | None => None
@@ -186,7 +201,7 @@ Definition resume_suite (c : config) (h : hello) (el : bool) (rc4 : Z) : option 
         else Some ss
       end
     end
-  | _ => None
+  | None => None
   end.
 
 (* ---- readClientHello ---- *)
@@ -224,7 +239,8 @@ Definition select_suite (c : config) (h : hello) (vers : Z) (supportedCurve supp
 Definition scsv_fallback (c : config) (h : hello) : bool :=
   mem tls_fallback_scsv (h_suites h) && (h_vers h <? max_version c).
 
-Definition negotiate (c : config) (h : hello) : outcome :=
+(* the decisions for a connection whose rule and certificate are already selected (c_rule, c_ecdsa) *)
+Definition negotiate1 (c : config) (h : hello) : outcome :=
   match mutual_version c (h_vers h) with
   | None => Alert alert_protocol_version
   | Some v0 =>
@@ -248,3 +264,58 @@ Definition negotiate (c : config) (h : hello) : outcome :=
       end
     end
   end.
+
+(* ---- per-connection selection by server name ---- *)
+Fixpoint lookup_rule (k : bytes) (l : list (bytes * rule)) : option rule :=
+  match l with
+  | [] => None
+  | (n, r) :: t => if bytes_eqb n k then Some r else lookup_rule k t
+  end.
+Definition select_rule (c : config) (sni : bytes) : option rule :=
+  match lookup_rule sni (c_rules c) with Some r => Some r | None => c_rule c end.
+
+Fixpoint lookup_cert (k : bytes) (l : list (bytes * bool)) : option bool :=
+  match l with
+  | [] => None
+  | (n, e) :: t => if bytes_eqb n k then Some e else lookup_cert k t
+  end.
+Fixpoint strip_dots (l : bytes) : bytes :=        (* on the reversed name *)
+  match l with 46 :: r => strip_dots r | _ => l end.
+(* labels[i] = "*" for i = 0, 1, ...: "*.b.c", "*.*.c", "*.*.*" *)
+Fixpoint wild_loop (stars rest : list bytes) (certs : list (bytes * bool)) : option bool :=
+  match rest with
+  | [] => None
+  | _ :: rest' =>
+    let stars' := stars ++ [[42]] in
+    match lookup_cert (join_byte 46 (stars' ++ rest')) certs with
+    | Some e => Some e
+    | None => wild_loop stars' rest' certs
+    end
+  end.
+(* Config.getCertificateForName (ASCII names) *)
+Definition cert_for_name (c : config) (name : bytes) : bool :=
+  match c_certs c with
+  | [] => c_ecdsa c
+  | certs =>
+    let n := rev (strip_dots (rev (to_lower name))) in
+    match lookup_cert n certs with
+    | Some e => e
+    | None =>
+      match wild_loop [] (split_byte 46 n) certs with
+      | Some e => e
+      | None => c_ecdsa c
+      end
+    end
+  end.
+Definition select_cert (c : config) (sni : bytes) : bool :=
+  match sni with [] => c_ecdsa c | _ => cert_for_name c sni end.
+
+(* the configuration as seen by one connection *)
+Definition eff (c : config) (h : hello) : config :=
+  {| c_min := c_min c; c_max := c_max c; c_prefer_server := c_prefer_server c; c_suites := c_suites c;
+     c_priority := c_priority c; c_protos := c_protos c; c_curves := c_curves c; c_poodle := c_poodle c;
+     c_tickets_disabled := c_tickets_disabled c; c_client_auth := c_client_auth c;
+     c_ecdsa := select_cert c (h_sni h); c_rule := select_rule c (h_sni h);
+     c_rules := []; c_certs := []; c_cache := c_cache c |}.
+
+Definition negotiate (c : config) (h : hello) : outcome := negotiate1 (eff c h) h.
